@@ -2,13 +2,18 @@
   Cosi.Driver.Access — line protocol of engine `access` (property C08).
 
   Header: `# engine=access flavour=r|q via=run|hook|reconcile name=<ctl> in=<inputs> out=<outputs>
-           cached=<ns/typ,..> nss=<..> typs=<..>`
+           cached=<ns/typ,..> nss=<..> typs=<..> [retain=1]`
+    The probe keeps two input buffers (0 = its initial inputs, 1 = empty) and one output buffer. With `retain=1`
+    its Inputs() / Outputs() / Settings() hand out those buffers themselves, otherwise copies.
     input token `ns/typ/<id>/kind` with `<id>` = `none` | `s:<value>`; output token `typ:kind`.
   Controller ops (through the runtime handle of the probe controller), all with `t=<tick> ns= typ= id=`:
     get getu list listu ctx | create powner= spec= opt=default|noowner | update spec=
     modify/modifyr mut=set:<spec>|noop|fail opt=default|noowner exp=default|any|running|tearingDown
     teardown/destroy own=default|s:<owner> | addfin/rmfin fins=<..>
-    setinputs in=<inputs>   (flavour r: UpdateInputs through the handle)
+    setinputs in=<inputs>   (flavour r: UpdateInputs through the handle, with a fresh slice) → `ok` / `err class=other`
+    setinputs b=<k> n=<n>   (flavour r: UpdateInputs(buffer k[:n]): the caller's buffer is sorted in place, the update is
+                             accepted or rejected by the dependency database — Cosi.Model.AccessDecl)
+    bufw what=in|out b=<k> at=<i> v=<tokens>   the probe rewrites its own buffer from index i (no runtime call)
     track                   (flavour r: StartTrackingOutputs; `panic` when already tracking, output_tracker.go:23)
     cleanup ns= typ=        (flavour r: CleanupOutputs(kind), output_tracker.go:32: List through the adapter, then
                              Destroy through the adapter of every listed resource owned by the controller and not
@@ -20,6 +25,7 @@
   and `calls=*` (the property says nothing about the cache).
 -/
 import Cosi.Model.Access
+import Cosi.Model.AccessDecl
 import Cosi.Spec.Access
 import Cosi.Driver.Store
 
@@ -47,7 +53,8 @@ def parseCached (tok : String) : String × String :=
 structure St where
   spec : Bool := false
   cfg : Cfg := {}
-  decl : Decl := default
+  /-- the probe's buffers, what its adapter keeps of them, and the declaration last accepted -/
+  ds : AccessDecl.DSt := {}
   cached : List (String × String) := []
   nss : List String := []
   typs : List String := []
@@ -55,10 +62,20 @@ structure St where
   tracking : Option (List (String × String × String)) := none
 
 def init (spec : Bool) (a : List (String × String)) : St :=
-  { spec := spec,
-    decl := { name := arg a "name", inputs := (argList a "in").map parseInput,
-              outputs := (argList a "out").map parseOutput },
+  let ins := (argList a "in").map parseInput
+  let outs := (argList a "out").map parseOutput
+  let fl : AccessDecl.Flavour := if arg a "flavour" == "q" then .q else .r
+  -- buffers 0 and 1 are the probe's own; without `retain` the runtime is handed copies nobody else can reach
+  -- (input buffer 2 / output buffer 1)
+  let ds := if arg a "retain" == "1" then AccessDecl.register fl (arg a "name") [ins, []] [outs] 0 ins.length 0 outs.length
+            else AccessDecl.register fl (arg a "name") [ins, [], ins] [outs, outs] 2 ins.length 1 outs.length
+  { spec := spec, ds := ds,
     cached := (argList a "cached").map parseCached, nss := argList a "nss", typs := argList a "typs" }
+
+/-- the declaration the guards decide by: in model mode what the adapter's slices hold NOW (views of the probe's
+    buffers where the regenerated `declKeep` says the adapter keeps the caller's slice), in spec mode the declaration
+    last accepted — the property's "declared inputs and outputs" -/
+def St.decl (st : St) : Decl := if st.spec then st.ds.decl else st.ds.eff
 
 def St.step (st : St) (now : Nat) (op : Op) : Store × Out :=
   if st.spec then Spec.step st.cfg st.store now op else Cosi.step st.cfg st.store now op
@@ -160,7 +177,16 @@ def stepLine (st : St) (op : String) (a : List (String × String)) : St × Strin
     let st1 := envDel st now ns typ id
     (st1, "ok calls=- | " ++ dump st1)
   | "setinputs" =>
-    let st1 := { st with decl := { st.decl with inputs := (argList a "in").map parseInput } }
+    if st.ds.fl == .q then (st, "unsupported calls=- | " ++ dump st) else
+    let x : AccessDecl.DOp := if hasArg a "b" then .updateBuf (argNat a "b" % 2) (argNat a "n")
+      else .updateFresh ((argList a "in").map parseInput)
+    let ok := AccessDecl.accepted AccessDecl.genRules st.ds x
+    let st1 := { st with ds := AccessDecl.step st.ds x }
+    (st1, (if ok then "ok" else "err class=other") ++ " calls=- | " ++ dump st1)
+  | "bufw" =>
+    let x : AccessDecl.DOp := if arg a "what" == "out" then .writeO 0 (argNat a "at") ((argList a "v").map parseOutput)
+      else .writeI (argNat a "b" % 2) (argNat a "at") ((argList a "v").map parseInput)
+    let st1 := { st with ds := AccessDecl.step st.ds x }
     (st1, "ok calls=- | " ++ dump st1)
   | "track" =>
     match st.tracking with
